@@ -7,6 +7,7 @@ import (
 
 	"github.com/advancedclimatesystems/gonnx/internal/zzverif"
 	"github.com/advancedclimatesystems/gonnx/onnx"
+	"github.com/advancedclimatesystems/gonnx/ops"
 	"gorgonia.org/tensor"
 )
 
@@ -172,6 +173,9 @@ func H_C16(v *zzverif.T) {
 	}
 	// mayrefuse: the operator may refuse the request; then alone and in a batch must agree about it
 	mayRefuse := v.Has("mayrefuse") && v.CBool("mayrefuse")
+	// the application also uses the library's exported tensor helpers for data of its own, and writes there:
+	// what a helper hands out belongs to whoever asked for it
+	zzUseExportedHelpers(v)
 	run := func(tag string, in Tensors) (Tensors, bool) {
 		var out Tensors
 		var rerr error
@@ -271,6 +275,17 @@ func H_C16(v *zzverif.T) {
 			want, full := zzStackG(ordered, singleShape[o], outAxis[o])
 			v.AssertTensor("C16.each-sample-as-alone:"+order+":"+name, out[name], full, want)
 		}
+	}
+}
+
+// zzUseExportedHelpers: an application fills tensors obtained from ops.ZeroTensor / ops.OnesTensor with its own data.
+func zzUseExportedHelpers(v *zzverif.T) {
+	scratch := zzverif.Syms[float32](v, "app_scratch", 8)
+	z := ops.ZeroTensor(4, 2)
+	o := ops.OnesTensor(z)
+	for i, x := range scratch {
+		z.(*tensor.Dense).Set(i, x)
+		o.(*tensor.Dense).Set(i, x)
 	}
 }
 
